@@ -89,6 +89,10 @@ def world_dims(s, rng, srcref=None, feat=None, pre=None):
         s["srcref"] = ""
     s["feat"] = (feat if feat is not None else rng.choice(FEATS)) if s["place"] != "dir-same" and s["place"] != "dir-cross" else ""
     s["pre"] = (pre if pre is not None else int(rng.random() < 0.3)) if s["cls"] == "cross" else 0
+    if s["feat"] == "nohead" and s["img"].get("alg") == "sha512":
+        # a registry that addresses a manifest by sha512 and does not say so: the client identifies the manifest by the
+        # sha256 of its body, "the original digest" is not observable - outside the property
+        s["feat"] = ""
     return s
 
 
@@ -99,7 +103,13 @@ def variant(s, rng):
     s.pop("expect", None)
     x = rng.random()
     datas = [o for o in s["prog"] if o["k"] == "Data"]
-    if datas and x < 0.5:
+    rebases = [o for o in s["prog"] if o["k"] == "Rebase"]
+    if rebases and x < 0.7:
+        # the rebase driven by the base image annotations of the image instead of by two references
+        for o in rebases:
+            o["k"] = "RebaseAnnot"
+        s["img"]["base"] = 1
+    elif datas and x < 0.5:
         for o in datas:
             o["i"] = rng.choice([300, 500, 700, 1000, 1500])
     elif x < 0.6:
@@ -335,6 +345,8 @@ def run(ctx):
     scns = [concretize(s, rng) for s in chosen]
     # shapes outside the prediction: a share of the programs on an attestation index / an image with a foreign layer
     extra = [variant(s, rng) for s in rng.sample(scns, max(40, len(scns) // 8))]
+    extra += [variant(s, rng) for s in vlib.sample(rng, [s for s in scns if any(o["k"] in ("Rebase", "Data") for o in s["prog"])],
+                                                   400 if thorough else 40)]
     # classes that have produced violations: always present
     must = []
     for i, (img, prog, cls, src) in enumerate([
@@ -349,7 +361,9 @@ def run(ctx):
             ({"n": 3, "hist": "LELL", "shape": "image", "mt": "oci", "comp": "gzip", "data": 0, "refs": 0, "ext": 0}, [{"k": "Rebase", "a": "", "v": "", "i": 0}], "same-tag", "dir"),
             ({"n": 3, "hist": "LELL", "shape": "index", "mt": "oci", "comp": "gzip", "data": 0, "refs": 1, "ext": 0}, [{"k": "Rebase", "a": "", "v": "", "i": 0}], "same-replace", "reg"),
             ({"n": 1, "hist": "L", "shape": "index", "mt": "oci", "comp": "gzip", "data": 1, "refs": 1, "ext": 0}, [{"k": "ManifestDigest", "a": "sha512", "v": "", "i": 0}], "same-tag", "reg"),
-            ({"n": 1, "hist": "L", "shape": "image", "mt": "oci", "comp": "gzip", "data": 0, "refs": 1, "ext": 0}, [{"k": "ManifestDigest", "a": "sha512", "v": "", "i": 0}], "same-digest", "dir")]):
+            ({"n": 1, "hist": "L", "shape": "image", "mt": "oci", "comp": "gzip", "data": 0, "refs": 1, "ext": 0}, [{"k": "ManifestDigest", "a": "sha512", "v": "", "i": 0}], "same-digest", "dir"),
+            ({"n": 3, "hist": "LELL", "shape": "image", "mt": "oci", "comp": "gzip", "data": 0, "refs": 0, "ext": 0, "base": 1}, [{"k": "RebaseAnnot", "a": "", "v": "", "i": 0}], "same-tag", "dir"),
+            ({"n": 3, "hist": "LELL", "shape": "index", "mt": "oci", "comp": "zstd", "data": 0, "refs": 1, "ext": 0, "base": 1, "alg": "sha512"}, [{"k": "RebaseAnnot", "a": "", "v": "", "i": 0}, {"k": "AddLayer", "a": "", "v": "", "i": 0}], "cross", "reg")]):
         must.append(concretize({"img": img, "prog": prog, "place": cls, "src": src, "noop": 0}, rng))
     # world dimensions one at a time on a few programs that touch referrers, blobs and manifests (quick), and the full
     # product srcref x registry features x pre-populated target on a sample of the scenarios (thorough)
@@ -445,7 +459,8 @@ def run(ctx):
                     minimal = subs_by_id[sid]["prog"]
                     break
             sig = "mod:%s:%s:%s@%s/%s/%s%s%s" % (ob, role, kinds(minimal), s["cls"], s["src"], s["img"]["shape"],
-                                                "+data" if s["img"]["data"] else "", "+ext" if s["img"]["ext"] else "")
+                                                "+data" if s["img"]["data"] else "",
+                                                ("+ext" if s["img"]["ext"] else "") + ("+sha512" if s["img"].get("alg") == "sha512" else ""))
             classes.setdefault(sig, {"traces": [], "minimal": minimal})
             classes[sig]["traces"] += groups[ck][(ob, role)]
     for sig in sorted(classes):
@@ -462,7 +477,8 @@ def run(ctx):
 
     # ---- 5. binding demos: a corrupted fact must be rejected
     clean = [t for i, t in enumerate(traces) if i not in bad and t["meta"]["ok"]
-             and any(e["ev"] == "image" and len(e["hids"]) >= 2 for e in t["events"])]
+             and any(e["ev"] == "image" and len(e["hids"]) >= 2 for e in t["events"])
+             and any(e["ev"] == "apply" and e["replace"] == 0 for e in t["events"])]
     if not clean:
         raise vlib.ToolError("no accepted trace to demonstrate the binding on")
     base = clean[0]
